@@ -235,6 +235,7 @@ var c10Decls = []declFrag{
 	dirty(`font-family: \1F600 expression(alert(1))`), dirty(`font-family: a\d800 b`), dirty(`color: \5c 72 ed`), dirty(`color: \75rl(javascript:x)`),
 	dirty(`color: red /* c */`), dirty(`/* c */`), dirty(`content: "a;b"`), dirty(`color: url(a;b)`), dirty(`color`), dirty(`: red`),
 	dirty(`color: red: blue`), dirty(`color: \`), dirty(`color: \red`), dirty(`color: re\d`), dirty(`c\6flor: red`), dirty(`color: red\9`),
+	dirty(`}position: fixed`), dirty(`{}color: red`), dirty(`/**/ }`), dirty(` `), dirty(`color: red\ `), dirty("color: red\\\t"),
 	dirty("color: \\72  ed"), dirty("color: r\\65\t\td"), dirty("color: \\72\n\ned"),
 	dirty(`font-family: \110000 x`), dirty(`font-family: \0 `), dirty(`color:red`), dirty(`color : red`), dirty(`color: "red"`),
 }
